@@ -609,71 +609,50 @@ func TestKnown_SetPasswdTransientUnlock(t *testing.T) {
 	}
 }
 
-// TestKnown_SetPasswdLostLock: goroutine A repeats {unlock with the right password; a short burst of failing
-// password changes; wait for B}; goroutine B, once A's unlock has returned, calls ProcWalletLock (it lands somewhere
-// in the burst) and, when the burst is over and before A unlocks again, reads the flag.  ProcWalletLock returned nil
-// after the unlock returned, nothing is in flight and no unlock followed: the wallet must be locked.  Schedule
-// dependent (the window is two adjacent atomic operations in ProcWalletSetPasswd): silent if never hit.
+// TestKnown_SetPasswdLostLock: goroutine A sends failing password changes back to back; goroutine B repeats
+// {unlock with the right password; short varying delay; ProcWalletLock; CheckWalletStatus()}.  CheckWalletStatus reads
+// the flag under the wallet mutex, i.e. while no password change is in flight; ProcWalletLock has just returned nil
+// and no unlock followed, so it must report "locked".  Schedule dependent (the window is two adjacent atomic operations
+// in ProcWalletSetPasswd, about one hit per 30 000 rounds here): silent if never hit.
 func TestKnown_SetPasswdLostLock(t *testing.T) {
 	defer lib.Flush()
 	w := newWorld()
 	defer w.n.destroy()
-	var epoch, ack atomic.Uint64 // epoch odd: A has unlocked and is sending changes; even: burst over, A waits for ack
 	var stop atomic.Bool
-	var unlockErr atomic.Value
+	var spin atomic.Uint64
 	var wg sync.WaitGroup
 	wg.Add(1)
 	go func() {
 		defer wg.Done()
 		req := &types.ReqWalletSetPasswd{OldPass: "never0valid0", NewPass: "newpass10x0"}
-		for round := 0; !stop.Load(); round++ {
-			if err := w.n.w.ProcWalletUnLock(&types.WalletUnLock{Passwd: pw0}); err != nil {
-				unlockErr.Store(err)
-				return
-			}
-			epoch.Add(1)
-			for k := 0; k < 4+round%29; k++ {
-				_ = w.n.w.ProcWalletSetPasswd(req)
-			}
-			e := epoch.Add(1)
-			for ack.Load() != e && !stop.Load() {
-				runtime.Gosched()
+		for !stop.Load() {
+			_ = w.n.w.ProcWalletSetPasswd(req)
+			for k := 0; k < 20; k++ { // leave the mutex free for a moment so that B is not starved
+				spin.Load()
 			}
 		}
 	}()
-	iters, lostAt := lib.Pick(300000, 1500000), -1
-	deadline := time.Now().Add(watchdog)
-	for i := 0; i < iters && lostAt < 0; i++ {
-		e := epoch.Load()
-		for ; e%2 == 0; e = epoch.Load() { // wait for A's unlock to have returned
-			if unlockErr.Load() != nil {
-				lib.Violation(t, prop, "TestKnown_SetPasswdLostLock", nil, "unlock with the right password failed: %v", unlockErr.Load())
-			}
-			if i%1024 == 0 && time.Now().After(deadline) {
-				lib.Inconclusive("C38 lost-lock stress: watchdog")
-			}
-			runtime.Gosched()
+	rounds, lostAt := lib.Pick(250000, 1000000), -1
+	for i := 0; i < rounds && lostAt < 0; i++ {
+		if err := w.n.w.ProcWalletUnLock(&types.WalletUnLock{Passwd: pw0}); err != nil {
+			lib.Violation(t, prop, "TestKnown_SetPasswdLostLock", nil, "unlock with the right password failed: %v", err)
 		}
-		for j := 0; j < i%4; j++ {
-			runtime.Gosched()
+		for k := 0; k < (i%16)*8; k++ {
+			spin.Load()
 		}
 		if err := w.n.w.ProcWalletLock(); err != nil {
 			lib.Violation(t, prop, "TestKnown_SetPasswdLostLock", nil, "lock failed: %v", err)
 		}
-		for epoch.Load() == e { // wait for the burst to end
-			runtime.Gosched()
-		}
-		if !w.n.w.IsWalletLocked() {
+		if ok, _ := w.n.w.CheckWalletStatus(); ok {
 			lostAt = i
 		}
-		ack.Store(e + 1)
 	}
 	stop.Store(true)
 	wg.Wait()
 	if lostAt >= 0 {
 		lib.KnownOrViolation(t, prop, "TestKnown_SetPasswdLostLock", idLostLock,
-			map[string]interface{}{"history": "A: loop {unlock(right); 4..32 x ProcWalletSetPasswd(wrong old password); wait}; B: loop {after A's unlock: lock; after A's burst: IsWalletLocked()}", "round": lostAt},
-			fmt.Sprintf("after ProcWalletLock returned nil (round %d) and with no request in flight the wallet is unlocked and stays so: a concurrent ProcWalletSetPasswd read the flag as unlocked, the lock set it, then the change cleared it (wallet_proc.go:907-913)", lostAt))
+			map[string]interface{}{"history": "A: loop ProcWalletSetPasswd(wrong old password); B: loop {unlock(right); lock; CheckWalletStatus()}", "round": lostAt},
+			fmt.Sprintf("after ProcWalletLock returned nil (round %d), with no request in flight and no unlock since, CheckWalletStatus() reports the wallet unlocked, and it stays so: a concurrent ProcWalletSetPasswd read the flag as unlocked, the lock set it, then the change cleared it (wallet_proc.go:907-913)", lostAt))
 	}
 }
 
